@@ -67,7 +67,8 @@ Definition spec_perm (s : suite) (c : case) (t : tcase) : perm :=
          (if is_nil (t_service t) then spec_default_service else t_service t)
          (if is_nil (t_service t) then spec_default_method (c_stream c) else t_method t)
          (1024 * 1024)
-         (t_rawreq t) (t_rawresp t).
+         (t_rawreq t) (t_rawresp t)
+         (t_extras t).                                         (* the author's other fields, as written *)
 
 (* the server process a permutation needs *)
 Definition spec_instance (c : case) : inst := mkInst (c_protocol c) (c_version c) (c_tls c) (c_certs c).
@@ -113,6 +114,18 @@ Definition grpc_applicable (cl sv : bool) (p : perm) : Prop :=
   p_cert p = [] /\
   (cl = true -> p_rawreq p = false) /\
   (sv = true -> p_rawresp p = false).
+
+(* a gRPC-peer variant is the permutation it was made from in every respect but the name: the
+   request fields, and the fields of the test case that the assertion reads later (the alternative
+   error codes, the expected response) or that shape the requests (expand_requests) *)
+Definition same_but_name (p q : perm) : Prop :=
+  p_simple q = p_simple p /\ p_version q = p_version p /\ p_protocol q = p_protocol p /\
+  p_codec q = p_codec p /\ p_compression q = p_compression p /\ p_stream q = p_stream p /\
+  p_cert q = p_cert p /\ p_creds q = p_creds p /\ p_service q = p_service p /\ p_method q = p_method p /\
+  p_limit q = p_limit p /\ p_rawreq q = p_rawreq p /\ p_rawresp q = p_rawresp p /\
+  x_other (p_extras q) = x_other (p_extras p) /\
+  x_expand (p_extras q) = x_expand (p_extras p) /\
+  x_expected (p_extras q) = x_expected (p_extras p).
 
 Definition spec_marker (cl sv : bool) : bytes :=
   match cl, sv with
